@@ -14,6 +14,7 @@ import (
 	"time"
 
 	"github.com/creachadair/jrpc2/channel"
+	"github.com/creachadair/jrpc2/internal/verifhook"
 	"github.com/creachadair/mds/queue"
 	"golang.org/x/sync/semaphore"
 )
@@ -196,6 +197,7 @@ func (s *Server) signal() {
 //
 // The caller must invoke the returned function to complete the request.
 func (s *Server) nextRequest() (func() error, error) {
+	verifhook.Point("srv.next")
 	s.mu.Lock()
 	defer s.mu.Unlock()
 	for s.ch != nil && s.inq.IsEmpty() {
@@ -225,6 +227,7 @@ func (s *Server) nextRequest() (func() error, error) {
 func (s *Server) waitForBarrier(n int) {
 	s.mu.Unlock()
 	defer s.mu.Lock()
+	verifhook.Point("srv.barrier")
 	s.nbar.Wait()
 	s.nbar.Add(n)
 }
@@ -286,6 +289,7 @@ func (s *Server) deliver(rsps jmessages, ch sender, elapsed time.Duration) error
 		return nil
 	}
 	s.log("Completed %d requests [%v elapsed]", len(rsps), elapsed)
+	verifhook.Point("srv.deliver")
 	s.mu.Lock()
 	defer s.mu.Unlock()
 
@@ -378,6 +382,7 @@ func (s *Server) setContext(t *task, id string) {
 // the return value into JSON if there is one.
 func (s *Server) invoke(base context.Context, h Handler, req *Request) (json.RawMessage, error) {
 	ctx := context.WithValue(base, serverKey{}, s)
+	verifhook.Point("srv.acquire")
 	if err := s.sem.Acquire(ctx, 1); err != nil {
 		return nil, err
 	}
@@ -385,6 +390,7 @@ func (s *Server) invoke(base context.Context, h Handler, req *Request) (json.Raw
 
 	s.rpcLog.LogRequest(ctx, req)
 	v, err := h(ctx, req)
+	verifhook.Point("srv.handled")
 	if err != nil {
 		if req.IsNotification() {
 			s.log("Discarding error from notification to %q: %v", req.Method(), err)
@@ -463,6 +469,7 @@ func (s *Server) Callback(ctx context.Context, method string, params any) (*Resp
 // response, deliver an error to the caller.
 func (s *Server) waitCallback(pctx context.Context, id string, p *Response) {
 	<-pctx.Done()
+	verifhook.Point("srv.cbwatch")
 	s.mu.Lock()
 	defer s.mu.Unlock()
 	if _, ok := s.call[id]; !ok {
@@ -487,6 +494,7 @@ func (s *Server) pushReq(ctx context.Context, wantID bool, method string, params
 		}
 		bits = v
 	}
+	verifhook.Point("srv.push")
 	s.mu.Lock()
 	defer s.mu.Unlock()
 	if s.ch == nil {
@@ -528,6 +536,7 @@ func (s *Server) pushReq(ctx context.Context, wantID bool, method string, params
 // is safe to call this method multiple times or from concurrent goroutines; it
 // will only take effect once.
 func (s *Server) Stop() {
+	verifhook.Point("srv.stop")
 	s.mu.Lock()
 	defer s.mu.Unlock()
 	s.stopLocked(errServerStopped)
@@ -644,6 +653,7 @@ func (s *Server) read(ch receiver) {
 			derr = in.parseJSON(bits)
 			rpcRequestsCount.Add(int64(len(in)))
 		}
+		verifhook.Point("srv.read")
 		s.mu.Lock()
 		if err != nil { // receive failure; shut down
 			s.stopLocked(err)
@@ -846,6 +856,7 @@ func (ts tasks) numToDo() (todo, notes int) {
 // CancelRequest instructs s to cancel the pending or in-flight request with
 // the specified ID. If no request exists with that ID, this is a no-op.
 func (s *Server) CancelRequest(id string) {
+	verifhook.Point("srv.cancel")
 	s.mu.Lock()
 	defer s.mu.Unlock()
 	if cancel, ok := s.used[id]; ok {
